@@ -1286,16 +1286,35 @@ func (fr *Frame) unop(st *State, g string, x *ssa.UnOp) *State {
 		return st
 	case token.ARROW:
 		// channel receive: unconstrained value
-		vc.note("channel receive in %s: received value unconstrained", fr.fn.String())
+		ci := fr.chanInvFor(x.X.Type())
+		if ci == nil {
+			vc.note("channel receive in %s: received value unconstrained", fr.fn.String())
+		}
 		if x.CommaOk {
 			tup := x.Type().(*types.Tuple)
 			v := vc.freshConst(fr.name(x)+"_v", vc.sortOf(tup.At(0).Type()))
 			ok := vc.freshConst(fr.name(x)+"_ok", "Bool")
 			fr.refFacts(v, tup.At(0).Type(), st)
 			fr.tuples[x] = []string{v, ok}
+			if ci != nil {
+				vc.assume(implies(and(g, ok), fr.chanInvTerm(ci, st, v, tup.At(0).Type(), false)))
+				if _, isPtr := tup.At(0).Type().Underlying().(*types.Pointer); isPtr {
+					vc.assume(implies(and(g, not(ok)), eq(v, "0")))
+				}
+				fr.chanInvTrust(ci, x.X.Type())
+			}
 			return st
 		}
 		fr.defFresh(x, st)
+		if ci != nil {
+			// a receive without ", ok": the value was sent, or is the zero value of a closed channel
+			inv := fr.chanInvTerm(ci, st, fr.val(x), x.Type(), false)
+			if _, isPtr := x.Type().Underlying().(*types.Pointer); isPtr {
+				inv = or(eq(fr.val(x), "0"), inv)
+				vc.assume(implies(g, inv))
+				fr.chanInvTrust(ci, x.X.Type())
+			}
+		}
 		return st
 	default:
 		fr.def(x, vc.unop(x.Op, fr.val(x.X), x.X.Type()))
@@ -1617,6 +1636,9 @@ func (fr *Frame) makeSlice(st *State, g string, x *ssa.MakeSlice) *State {
 	ln := fr.idxTerm(x.Len)
 	cp := fr.idxTerm(x.Cap)
 	fr.safety("makesize", g, and(vc.leInt(z, ln), vc.leInt(ln, cp)), x.Pos(), "makeslice: len out of range")
+	// `at call make: label: cond` - an assertion at every slice allocation (arg0 = length, arg1 = capacity)
+	makeSig := types.NewSignatureType(nil, nil, nil, types.NewTuple(types.NewVar(x.Pos(), nil, "len", it), types.NewVar(x.Pos(), nil, "cap", it)), nil, false)
+	fr.callSiteAsserts(st, g, "make", false, []string{ln, cp}, nil, x.Pos(), makeSig)
 	var r string
 	st, r = fr.alloc(st)
 	et := x.Type().Underlying().(*types.Slice).Elem()
@@ -1770,6 +1792,22 @@ func (fr *Frame) selectInstr(st *State, g string, x *ssa.Select) *State {
 		res = append(res, c)
 	}
 	fr.tuples[x] = res
+	// received values satisfy the declared invariant of their channel type
+	ri := 2
+	for i, s := range x.States {
+		if s.Dir == types.RecvOnly {
+			if ci := fr.chanInvFor(s.Chan.Type()); ci != nil && ri < len(res) {
+				sel := and(g, eq(idx, vc.intLitN(int64(i), types.Typ[types.Int])), res[1])
+				vc.assume(implies(sel, fr.chanInvTerm(ci, st, res[ri], tup.At(ri).Type(), false)))
+				if _, isPtr := tup.At(ri).Type().Underlying().(*types.Pointer); isPtr {
+					// a closed channel yields the zero value
+					vc.assume(implies(and(g, eq(idx, vc.intLitN(int64(i), types.Typ[types.Int])), not(res[1])), eq(res[ri], "0")))
+				}
+				fr.chanInvTrust(ci, s.Chan.Type())
+			}
+			ri++
+		}
+	}
 	// sends performed by the select are effects
 	for i, s := range x.States {
 		if s.Dir == types.SendOnly {
@@ -1783,7 +1821,48 @@ func (fr *Frame) chanSend(st *State, g string, x *ssa.Send) *State {
 	return fr.emitChanSend(st, g, x.Chan, x.X, false)
 }
 
+// chanInvFor: the declared invariant of values sent on channels with this element type, if any.
+func (fr *Frame) chanInvFor(ch types.Type) *ChanInv {
+	ct, ok := ch.Underlying().(*types.Chan)
+	if !ok {
+		return nil
+	}
+	for _, ci := range fr.vc.eng.cs.ChanInvs {
+		if types.Identical(deepUnalias(fr.vc.eng.resolveType(ci.Elem, fr.vc.pkg)), deepUnalias(ct.Elem())) {
+			return ci
+		}
+	}
+	return nil
+}
+
+func (fr *Frame) chanInvTrust(ci *ChanInv, ch types.Type) {
+	elem := ch.Underlying().(*types.Chan).Elem()
+	fr.vc.trust("channel invariant %s (values of %s): an obligation at every send in a function under contract, assumed for every received value; module-wide scan - %s", ci.Pred, elem.String(), fr.vc.eng.chanInvScan(ci, elem))
+}
+
+func (fr *Frame) chanInvTerm(ci *ChanInv, st *State, v string, vt types.Type, goal bool) string {
+	t := fr.top()
+	env := t.newEnvAt(st)
+	env.names["chv__"] = TV{term: v, typ: vt}
+	e, err := ParseExpr(ci.Pred + "(chv__)")
+	if err != nil {
+		panic(bindErr("chaninv " + ci.Src + ": " + err.Error()))
+	}
+	c := Clause{Label: ci.Pred, Src: "chaninv " + ci.Src, E: e, File: ci.File, Line: ci.Line}
+	if goal {
+		return t.evalGoal(c, env, "channel invariant")
+	}
+	return t.evalClause(c, env, "channel invariant")
+}
+
 func (fr *Frame) emitChanSend(st *State, g string, ch, v ssa.Value, cond bool) *State {
+	if ci := fr.chanInvFor(ch.Type()); ci != nil {
+		t := fr.top()
+		t.callSeq["chaninv:"+ci.Pred]++
+		goal := fr.chanInvTerm(ci, st, fr.val(v), v.Type(), true)
+		fr.vc.addObl(&Obligation{Name: fmt.Sprintf("%s#chaninv.%s.%d", fr.vc.unit, ci.Pred, t.callSeq["chaninv:"+ci.Pred]), Kind: "assert", Props: t.props(),
+			Guard: g, Goal: goal, Src: "value sent on a channel satisfies " + ci.Pred, File: ci.File, Line: ci.Line})
+	}
 	// a channel send is recorded as the effect ChanSend(chan, value-as-int) when that effect is declared
 	ed := fr.vc.eng.cs.Effects["ChanSend"]
 	if ed == nil {
